@@ -14,7 +14,6 @@ import (
 
 	"github.com/shutter-network/rolling-shutter/rolling-shutter/keyper/shutterevents"
 	"github.com/shutter-network/rolling-shutter/rolling-shutter/shmsg"
-
 )
 
 var order, _ = new(big.Int).SetString("73eda753299d7d483339d80809a1d80553bda402fffe5bfeffffffff00000001", 16)
@@ -293,6 +292,12 @@ func (w *World) PlayBlock() {
 				res := k.Step(w.l1(open))
 				if res.Crashed {
 					w.StepLog = append(w.StepLog, fmt.Sprintf("h%d k%d crash: %s", open, i, k.Crashes[len(k.Crashes)-1]))
+					if attempt < 8 {
+						continue
+					}
+				}
+				if res.Injected {
+					w.StepLog = append(w.StepLog, fmt.Sprintf("h%d k%d injected error: %s", open, i, k.Injected[len(k.Injected)-1]))
 					if attempt < 8 {
 						continue
 					}
